@@ -25,9 +25,10 @@ VARIABLES cfg,    \* realm configuration record (see InitCfg)
           hist,   \* <<topic, match>> -> sequence of retained publications
           tst,    \* session -> sequence of testaments
           now,    \* clock, milliseconds
+          retry,  \* RESULTs a callee's handler is retrying to send to a blocked caller
           out     \* session -> sequence of messages received in the last step
 
-vars == <<cfg, sess, subs, regs, calls, used, hist, tst, now, out>>
+vars == <<cfg, sess, subs, regs, calls, used, hist, tst, now, retry, out>>
 
 Rng(f) == {f[i] : i \in DOMAIN f}
 
@@ -64,15 +65,28 @@ ErrorMsg(type, req, uri, S) ==
 \* --------------------------------------------------------------------------
 \* the state record
 Cur == [cfg |-> cfg, sess |-> sess, subs |-> subs, regs |-> regs, calls |-> calls,
-        used |-> used, hist |-> hist, tst |-> tst, now |-> now, em |-> <<>>]
+        used |-> used, hist |-> hist, tst |-> tst, now |-> now, retry |-> retry, em |-> <<>>]
+
+\* A session that does not read (stalled) has at most its queue capacity of
+\* messages buffered for it; the rest is dropped (C07).  Settle moves the
+\* emissions for stalled sessions into their buffers.
+RECURSIVE SettleFrom(_, _, _)
+SettleFrom(S, i, keep) ==
+  IF i > Len(S.em) THEN [S EXCEPT !.em = keep]
+  ELSE LET e == S.em[i] IN
+       IF e.to \in DOMAIN S.sess /\ S.sess[e.to].stalled
+       THEN SettleFrom([S EXCEPT !.sess[e.to].pend = IF Len(@) < S.sess[e.to].cap THEN Append(@, e.m) ELSE @], i + 1, keep)
+       ELSE SettleFrom(S, i + 1, Append(keep, e))
+Settle(S) == SettleFrom(S, 1, <<>>)
 
 Deliver(S) == [s \in DOMAIN S.sess |->
                  LET mine == SelectSeq(S.em, LAMBDA e : e.to = s)
                  IN [i \in 1..Len(mine) |-> mine[i].m]]
 
-Commit(S) == /\ cfg' = S.cfg /\ sess' = S.sess /\ subs' = S.subs /\ regs' = S.regs
+Commit(S0) == LET S == Settle(S0) IN
+             /\ cfg' = S.cfg /\ sess' = S.sess /\ subs' = S.subs /\ regs' = S.regs
              /\ calls' = S.calls /\ used' = S.used /\ hist' = S.hist /\ tst' = S.tst
-             /\ now' = S.now /\ out' = Deliver(S)
+             /\ now' = S.now /\ retry' = S.retry /\ out' = Deliver(S)
 
 Emit(S, to, m)   == [S EXCEPT !.em = Append(@, [to |-> to, m |-> m])]
 EmitSeq(S, q)    == [S EXCEPT !.em = @ \o q]
@@ -154,7 +168,8 @@ JoinFx(S, s, j, sid) ==
                      authprovider |-> "static", color |-> j.color]
                ELSE [authid |-> j.authid, authrole |-> RoleOfUser(S.cfg, j.authid), authmethod |-> "ticket",
                      authprovider |-> "static", color |-> j.color]
-      rec   == [st |-> "joined", id |-> sid, attrs |-> attrs, feats |-> Rng(j.feats), local |-> j.local]
+      rec   == [st |-> "joined", id |-> sid, attrs |-> attrs, feats |-> Rng(j.feats), local |-> j.local,
+                stalled |-> FALSE, pend |-> <<>>, cap |-> IF j.q = 0 THEN 64 ELSE j.q]
       S1    == [S EXCEPT !.sess = (s :> rec) @@ @,
                          !.used.sid = @ \cup {sid},
                          !.used.inv = (s :> {}) @@ @,
@@ -211,18 +226,21 @@ UnsubscribeFx(S, s, req, subid) ==
   IF ks = {} \/ (\A k \in ks : s \notin S.subs[k].members)
   THEN Emit(S, s, ErrorMsg(T_UNSUBSCRIBE, req, ErrNoSuchSub, S))
   ELSE LET k  == CHOOSE kk \in ks : TRUE
-           S1 == Emit(S, s, [Base EXCEPT !.k = "UNSUBSCRIBED", !.req = req, !.t = S.now])
+           \* y = the subscription the acknowledged request named (the observer's own bookkeeping)
+           S1 == Emit(S, s, [Base EXCEPT !.k = "UNSUBSCRIBED", !.req = req, !.y = subid, !.t = S.now])
        IN RemoveMemberFx(S1, s, k, TRUE)
 
-PublishReqFx(S, s, req, topic, o, pubid, tag) ==
+\* x, y: sequence number and sender index carried by the payload tags of burst steps (0 otherwise)
+PublishReqFx2(S, s, req, topic, o, pubid, tag, x, y) ==
   IF ~ValidURI(S.cfg.strict, "exact", topic)
   THEN IF o.ack THEN Emit(S, s, ErrorMsg(T_PUBLISH, req, ErrInvalidURI, S)) ELSE S
   ELSE IF o.dme /\ ~S.cfg.disclose
   THEN IF o.ack THEN Emit(S, s, ErrorMsg(T_PUBLISH, req, ErrDiscloseMe, S)) ELSE S
   ELSE LET S1 == PublishFx([S EXCEPT !.used.pub = @ \cup {pubid}], s, topic, o, pubid,
-                           [Base EXCEPT !.p = tag], o.dme)
+                           [Base EXCEPT !.p = tag, !.x = x, !.y = y], o.dme)
        IN IF o.ack THEN Emit(S1, s, [Base EXCEPT !.k = "PUBLISHED", !.req = req, !.a = pubid, !.t = S.now])
           ELSE S1
+PublishReqFx(S, s, req, topic, o, pubid, tag) == PublishReqFx2(S, s, req, topic, o, pubid, tag, 0, 0)
 
 \* --------------------------------------------------------------------------
 \* dealer: registrations
@@ -271,7 +289,7 @@ UnregisterFx(S, s, req, regid) ==
   IF ks = {} \/ (\A k \in ks : s \notin Rng(S.regs[k].callees))
   THEN Emit(S, s, ErrorMsg(T_UNREGISTER, req, ErrNoSuchReg, S))
   ELSE LET k  == CHOOSE kk \in ks : TRUE
-           S1 == Emit(S, s, [Base EXCEPT !.k = "UNREGISTERED", !.req = req, !.t = S.now])
+           S1 == Emit(S, s, [Base EXCEPT !.k = "UNREGISTERED", !.req = req, !.y = regid, !.t = S.now])
        IN RemoveCalleeFx(S1, s, k)
 
 \* --------------------------------------------------------------------------
@@ -362,6 +380,9 @@ CancelFx(S, s, req, mode) ==
 
 CallsByInv(S, callee, inv) == {c \in DOMAIN S.calls : S.calls[c].callee = callee /\ S.calls[c].inv = inv}
 
+\* Can a message for s be queued right now?  (a reading session always has room)
+Room(S, s) == ~S.sess[s].stalled \/ Len(S.sess[s].pend) < S.sess[s].cap
+
 YieldFx(S, s, inv, progress, tag) ==
   LET cs == CallsByInv(S, s, inv) IN
   IF cs = {}
@@ -371,8 +392,12 @@ YieldFx(S, s, inv, progress, tag) ==
   ELSE LET c  == CHOOSE cc \in cs : TRUE
            rm == [Base EXCEPT !.k = "RESULT", !.req = c[2], !.p = tag,
                               !.d = IF progress THEN {<<"progress", "true">>} ELSE {}, !.t = S.now]
-           S1 == Emit(S, c[1], rm)
-       IN IF progress THEN S1 ELSE DropCall(S1, c)
+       IN IF ~Room(S, c[1])
+          THEN \* the one bounded exception of C07: the callee's handler keeps retrying
+               \* (after 1, 2, 4, ... ms) until the caller has room or the result-retry
+               \* period (60 s) is over; then the call is cancelled
+               [S EXCEPT !.retry = Append(@, [callee |-> s, c |-> c, m |-> rm, final |-> ~progress, start |-> S.now])]
+          ELSE LET S1 == Emit(S, c[1], rm) IN IF progress THEN S1 ELSE DropCall(S1, c)
 
 InvErrorFx(S, s, inv, erruri, tag) ==
   LET cs == CallsByInv(S, s, inv) IN
@@ -391,7 +416,50 @@ FireFx(S, upto) ==
            S1 == [S EXCEPT !.now = S.calls[c].deadline]
        IN FireFx(CancelCoreFx(S1, c, "killnowait", ErrTimeout), upto)
 
-AdvanceFx(S, ms) == FireFx(S, S.now + ms)
+\* retry instants of a held RESULT: start + 2^k - 1 ms; the attempt at which 60 s
+\* have passed is the last one
+RECURSIVE Pow2(_)
+Pow2(k) == IF k = 0 THEN 1 ELSE 2 * Pow2(k - 1)
+RetryAt(r, k) == r.start + Pow2(k) - 1
+RetryDeadline == 60000
+
+\* the earliest event (call timer or retry attempt) in (S.now, upto], processed in time order
+NextRetry(S, r) == CHOOSE k \in 1..17 : RetryAt(r, k) > S.now /\ \A j \in 1..(k-1) : RetryAt(r, j) <= S.now
+
+RECURSIVE TimeFx(_, _)
+TimeFx(S, upto) ==
+  LET due   == Due(S, upto)
+      tcall == IF due = {} THEN upto + 1
+               ELSE S.calls[CHOOSE cc \in due : \A c2 \in due : S.calls[cc].deadline <= S.calls[c2].deadline].deadline
+      tret  == IF S.retry = <<>> THEN upto + 1 ELSE RetryAt(S.retry[1], NextRetry(S, S.retry[1]))
+  IN IF tcall > upto /\ tret > upto THEN [S EXCEPT !.now = upto]
+     ELSE IF tcall <= tret
+     THEN LET c  == CHOOSE cc \in due : \A c2 \in due : S.calls[cc].deadline <= S.calls[c2].deadline
+              S1 == [S EXCEPT !.now = S.calls[c].deadline]
+          IN TimeFx(CancelCoreFx(S1, c, "killnowait", ErrTimeout), upto)
+     ELSE LET r  == S.retry[1]
+              S1 == Settle([S EXCEPT !.now = tret])
+              gone == r.c \notin DOMAIN S.calls \/ S.sess[r.c[1]].st # "joined"
+          IN IF gone
+             THEN \* the call is gone (its caller left): a held progressive result is answered with INTERRUPT
+                  TimeFx(IF r.final \/ S.sess[r.callee].st # "joined" THEN [S1 EXCEPT !.retry = Tail(@)]
+                         ELSE Emit([S1 EXCEPT !.retry = Tail(@)], r.callee,
+                                   [Base EXCEPT !.k = "INTERRUPT", !.req = r.m.req, !.d = {<<"mode", "killnowait">>}, !.t = tret]), upto)
+             ELSE IF Room(S1, r.c[1])
+             THEN LET S2 == Emit([S1 EXCEPT !.retry = Tail(@)], r.c[1], [r.m EXCEPT !.t = tret])
+                  IN TimeFx(IF r.final THEN DropCall(S2, r.c) ELSE S2, upto)
+             ELSE IF tret - r.start >= RetryDeadline
+             THEN TimeFx(CancelCoreFx([S1 EXCEPT !.retry = Tail(@)], r.c, "killnowait", ErrCanceled), upto)
+             ELSE TimeFx(S1, upto)
+
+AdvanceFx(S, ms) == TimeFx(S, S.now + ms)
+
+\* a client stops / resumes reading
+StallFx(S, s)  == [S EXCEPT !.sess[s].stalled = TRUE]
+ResumeFx(S, s) ==
+  LET q == S.sess[s].pend
+      S1 == [S EXCEPT !.sess[s].stalled = FALSE, !.sess[s].pend = <<>>]
+  IN EmitSeq(S1, [i \in DOMAIN q |-> [to |-> s, m |-> [q[i] EXCEPT !.t = S.now]]])
 
 \* --------------------------------------------------------------------------
 \* a session ends.  how \in {"goodbye", "lost", "violation", "kill", "killall"};
@@ -448,6 +516,22 @@ LeaveFx(S, s, how, reason) ==
                                         !.pd = {<<"authid", Attr(S, s, "authid")>>, <<"authrole", Attr(S, s, "authrole")>>}])
   \* finally the router closes the session's transport
   IN Emit(Sh, s, [Base EXCEPT !.k = "CLOSED", !.t = S.now])
+
+\* --------------------------------------------------------------------------
+\* bursts (C07/C08): the programs of several sessions, flattened; the effect of
+\* the publications of a burst does not depend on their interleaving
+RECURSIVE FlatProg(_, _)
+FlatProg(prog, i) == IF i > Len(prog) THEN <<>>
+                     ELSE [j \in DOMAIN prog[i].ops |-> [s |-> prog[i].s, op |-> prog[i].ops[j]]] \o FlatProg(prog, i + 1)
+
+RECURSIVE PubAllFx(_, _)
+PubAllFx(S, q) ==
+  IF q = <<>> THEN S
+  ELSE LET e == Head(q) IN
+       PubAllFx(IF e.op.op = "publish" /\ e.s \in Joined(S) /\ ~S.sess[e.s].stalled
+                \* publication ids of burst publications are not observed (0); id/ms carry seq/sender
+                THEN PublishReqFx2(S, e.s, e.op.req, e.op.uri, e.op.o, 0, e.op.tag, e.op.id, e.op.ms) ELSE S, Tail(q))
+
 
 \* --------------------------------------------------------------------------
 \* the realm is closed (RemoveRealm / router Close): every attached session is told
@@ -621,7 +705,7 @@ MetaCallFx(S, s, req, i, hp, pick) ==
 \* --------------------------------------------------------------------------
 \* hcfg: sequence of [u, m, n] (topic, match policy, limit); users: sequence of [id, role]
 InitCfg == [strict |-> FALSE, disclose |-> FALSE, metakill |-> TRUE, hcfg |-> <<>>, users |-> <<>>,
-            authz |-> <<>>, lauthz |-> FALSE]
+            authz |-> <<>>, lauthz |-> FALSE, late |-> FALSE, template |-> FALSE, closed |-> FALSE]
 
 \* the state of a freshly started realm with configuration c
 StateOf(c) ==
@@ -630,10 +714,10 @@ StateOf(c) ==
    subs |-> [k \in Rng(hk) |-> [id |-> (CHOOSE i \in DOMAIN hk : hk[i] = k), members |-> {}]],
    hist |-> [k \in Rng(hk) |-> <<>>],
    used |-> [sub |-> 1..Len(hk), reg |-> {}, pub |-> {}, sid |-> {}, inv |-> <<>>],
-   now |-> 0, em |-> <<>>]
+   now |-> 0, retry |-> <<>>, em |-> <<>>]
 
 InitWith(c) ==
   LET S == StateOf(c) IN
   /\ cfg = S.cfg /\ sess = S.sess /\ subs = S.subs /\ regs = S.regs /\ calls = S.calls
-  /\ used = S.used /\ hist = S.hist /\ tst = S.tst /\ now = S.now /\ out = <<>>
+  /\ used = S.used /\ hist = S.hist /\ tst = S.tst /\ now = S.now /\ retry = <<>> /\ out = <<>>
 =============================================================================
